@@ -74,6 +74,7 @@ type rigStep struct {
 	Mode string `json:"mode,omitempty"` // restart: clean|kill ; replica: replay_log|restore_snapshot
 
 	Type     string `json:"type,omitempty"` // apply: robust message type
+	ClockMs  int64  `json:"clock_ms,omitempty"` // apply: the entry is stamped now+clock_ms (as by a leader whose clock is ahead/behind)
 	Revision uint64 `json:"revision,omitempty"`
 	Remote   string `json:"remote,omitempty"`
 
@@ -1229,7 +1230,7 @@ func (c *rigChild) rawApply(st rigStep, r *rigResult) {
 		Data:       st.Data,
 		Revision:   st.Revision,
 		RemoteAddr: st.Remote,
-		UnixNano:   time.Now().UnixNano(),
+		UnixNano:   time.Now().UnixNano() + st.ClockMs*int64(time.Millisecond),
 	}
 	if st.Session != "" {
 		switch st.Sid {
